@@ -49,6 +49,27 @@ func init() {
 				disk.Violations = append(disk.Violations, bk.Violations...)
 			}
 			cov["large_transaction_pass"] = bulkCov
+			// three more domains, each a separate pass (see models/c11 setVariant)
+			for _, v := range []struct {
+				name        string
+				quick, deep int
+				opts        map[string]interface{}
+			}{
+				{"deep", 7, 9, map[string]interface{}{"max_tx": 2, "max_ops": 4, "variant": "deep"}},
+				{"encoding", 6, 8, map[string]interface{}{"max_tx": 2, "max_ops": 3, "variant": "encoding"}},
+				{"reader", 8, 10, map[string]interface{}{"max_tx": 3, "max_ops": 2, "variant": "reader"}},
+			} {
+				d := v.quick
+				if c.Tier == "thorough" {
+					d = v.deep
+				}
+				vo, err := runBFS(c.Bin, c.Scratch, bfsCfg{Model: "c11", Opts: v.opts, Depth: d, Workers: c.Workers, Deadline: dl, Recycle: 5000, OpenTags: openTags(c)})
+				if err != nil {
+					return nil, nil, nil, err
+				}
+				cov[v.name+"_pass"] = map[string]interface{}{"states": vo.States, "transitions": vo.Transitions, "depth_completed": vo.DepthDone, "exhaustive": vo.Exhaustive, "distinct_outcomes": len(vo.Outcomes), "info": vo.Info, "opts": v.opts}
+				disk.Violations = append(disk.Violations, vo.Violations...)
+			}
 			return cov, []string{
 				"iteration order of uncommitted data inside a dirty write transaction is observed (info.dirty_iteration_differs_from_merged_view) but not required: C11 specifies iteration for committed entries",
 				"goleveldb trusted; the large pass runs over goleveldb's in-memory storage (reopen = close + recover from the same storage), the small pass over the real directory-backed CreateDB/OpenDB",
